@@ -151,24 +151,32 @@ Proof. exact dec_guard_nonvacuous. Qed.
 Print Assumptions C05_decimal_guard_nonvacuous.
 
 (* ======================= QName <-> xs:QName ============================== *)
-(* full acceptance is false: is_ncname rejects NCNames with combining marks *)
+(* is_ncname covers the NCName production of XML Namespaces (false before repo fix
+   4e4ae03, where 'a' + U+0301 was the refutation witness) *)
+Theorem C05_is_ncname_accepts_xsd : forall s, xsd_ncname s = true -> is_ncname s = true.
+Proof. exact xsd_ncname_accepted. Qed.
+Print Assumptions C05_is_ncname_accepts_xsd.
+
+(* full acceptance is still false in one corner: QNameConverter.resolve strips with
+   str.strip(), and U+1680 is both an XML NameStartChar and Python whitespace *)
 Theorem C05_qname_accepts_xsd_refuted :
-  exists q env v, wf_qname q = true /\ val_qname env q = Some v /\ qname_deser (lex_qname q) (Some env) = None.
+  exists q env v, wf_qname q = true /\ val_qname env q = Some v
+                  /\ qname_deser (lex_qname q) (Some env) <> Some (expanded_name v).
 Proof. exact qname_accepts_xsd_refuted. Qed.
 Print Assumptions C05_qname_accepts_xsd_refuted.
 
 Theorem C05_qname_accepts_xsd : forall q env a b v,
-  wf_qname q = true -> val_qname env q = Some v -> qname_sp_py_guard q = true ->
+  wf_qname q = true -> val_qname env q = Some v -> qname_sp_edge_guard q = true ->
   forallb xml_ws a = true -> forallb xml_ws b = true ->
   qname_deser (a ++ lex_qname q ++ b) (Some env) = Some (expanded_name v).
 Proof. exact qname_accepts_xsd. Qed.
 Print Assumptions C05_qname_accepts_xsd.
 
 Example C05_qname_accepts_guard_nonvacuous :
-  let q := mk_qname_sp (Some [112; 45; 113]%N) [233; 116; 233; 46; 49; 95]%N in
-  wf_qname q = true /\ qname_sp_py_guard q = true
+  let q := mk_qname_sp (Some [112; 45; 113]%N) [97; 769; 3634; 183; 8255]%N in
+  wf_qname q = true /\ qname_sp_edge_guard q = true
   /\ qname_deser ([32; 10] ++ lex_qname q ++ [9])%N (Some [(Some [112; 45; 113], [117;114;110;58;97])]%N)
-     = Some ([123;117;114;110;58;97;125] ++ [233; 116; 233; 46; 49; 95])%N.
+     = Some ([123;117;114;110;58;97;125] ++ [97; 769; 3634; 183; 8255])%N.
 Proof. exact qname_accepts_guard_nonvacuous. Qed.
 Print Assumptions C05_qname_accepts_guard_nonvacuous.
 
@@ -179,7 +187,7 @@ Proof. exact is_uri_accepts_plain. Qed.
 Print Assumptions C05_is_uri_accepts_plain.
 
 Theorem C05_qname_roundtrip_clark_plain : forall u local,
-  spec_uri_plain u = true -> is_ncname local = true ->
+  spec_uri_plain u = true -> is_ncname local = true -> name_edges_ok local = true ->
   qname_deser (qname_text (Some u) local) None = Some (qname_text (Some u) local)
   /\ qname_ser (qname_text (Some u) local) None = Some (qname_text (Some u) local, None).
 Proof. exact qname_roundtrip_clark_plain. Qed.
@@ -197,6 +205,13 @@ Theorem C05_qname_roundtrip_clark_refuted :
     forall s m', qname_ser (qname_text (Some u) local) None = Some (s, m') -> qname_deser s m' = None.
 Proof. exact qname_roundtrip_clark_refuted. Qed.
 Print Assumptions C05_qname_roundtrip_clark_refuted.
+
+Theorem C05_qname_roundtrip_edges_refuted :
+  exists local, is_ncname local = true /\
+    exists s m', qname_ser (qname_text None local) None = Some (s, m')
+                 /\ qname_deser s m' <> Some (qname_text None local).
+Proof. exact qname_roundtrip_edges_refuted. Qed.
+Print Assumptions C05_qname_roundtrip_edges_refuted.
 
 Theorem C05_qname_roundtrip_default_refuted :
   exists local m, is_ncname local = true /\ wf_nsmap m = true /\
